@@ -14,7 +14,7 @@ PROPERTY = 'C09'
 RULE = ('A generated formula and a generated decomposition: a set of its sub-terms hoisted into named sub-specifications (dependency '
         'order, nested, every textual re-occurrence replaced by the name; sub-formula reuse is raised so multiple references are common), '
         'some literals hoisted into declare_const; delivered through add_sub_spec or as several assertions in one text, names declared or '
-        'not, each requirement text optionally laid out with line comments after / before it, block comments and line breaks, optionally one sub-specification written out inside the others and defined last, optionally a further requirement that nothing refers to (after pastify with a longer look-ahead), the main text optionally written to a file and loaded with get_spec_from_file(); five monitor set-ups (discrete offline, online, online after pastify; dense offline, online in 1-3 chunks). One requirement in six is named time / results / value / rob / dataset. Lane bigint_const: every literal hoisted into a constant that declare_const() receives as Python int, Python float or text, integer samples of the order of 1.7e18, discrete time offline and online, compared exactly. Oracle '
+        'not, each requirement text optionally laid out with line comments after / before it, block comments and line breaks, optionally one sub-specification written out inside the others and defined last, optionally a further requirement that nothing refers to (after pastify with a longer look-ahead), the main text optionally written to a file and loaded with get_spec_from_file(); five monitor set-ups (discrete offline, online, online after pastify; dense offline, online in 1-3 chunks). One requirement in six is named time / results / value / rob / dataset. Lane redefined: a = s1; b = t(a); a = s2; out = m(a, b) through add_sub_spec or in one text against m(s2, t(s1)) written out (a reference means the definition in force at that point). Lane bigint_const: every literal hoisted into a constant that declare_const() receives as Python int, Python float or text, integer samples of the order of 1.7e18, discrete time offline and online, compared exactly. Oracle '
         '(differential): outputs of the modular specification == outputs of the inlined specification on the same monitor and data. '
         'Non-trivial = >= 1 sub-specification that contains a stateful/temporal operator or is referenced >= 2 times; distinct = distinct '
         '(modular text, data, kind) digests.')
@@ -161,3 +161,67 @@ def check_bigint_const(case):
 
 
 LANES.append(Lane('bigint_const', bigint_const_cases, check_bigint_const, 600, 6000, None))
+
+
+# ---- a name that is defined again after it has been used -----------------------------------------------------------
+
+def redefined_cases(tier):
+    from hypothesis import strategies as st
+    from ..formula import Profile
+
+    @st.composite
+    def mk(draw):
+        kind = draw(st.sampled_from(['dt_off', 'dt_off', 'dt_on']))
+        prof = (Profile(max_depth=3) if kind == 'dt_off' else Profile(un_temp=F.UN_PAST, bin_temp=F.BIN_PAST, tun=F.TUN_PAST, tbin=F.TBIN_PAST, max_depth=3)).copy(reuse=0.0)
+        s1, vs = draw(F.formulas(prof.copy(max_depth=2)))
+        s2, _ = draw(F.formulas(prof.copy(max_depth=2), variables=vs))
+        t, _ = draw(F.formulas(prof, variables=vs + ['a']))
+        if 'a' not in F.fvars(t):
+            t = ('un', draw(st.sampled_from(['once', 'historically', 'not'])), ('var', 'a'))
+        m, _ = draw(F.formulas(prof, variables=vs + ['a', 'b']))
+        if not {'a', 'b'} <= set(F.fvars(m)):
+            m = ('bin', draw(st.sampled_from(['and', 'or', 'implies'])), ('var', 'a'), ('var', 'b'))
+        n = draw(F.trace_lengths(10))
+        return {'kind': kind, 's1': s1, 's2': s2, 't': t, 'm': m, 'vars': vs, 'trace': draw(F.traces(vs, n=n)),
+                'delivery': draw(st.sampled_from(['add_sub_spec', 'add_sub_spec', 'assertions']))}
+    return mk()
+
+
+def check_redefined(case):
+    """a = s1; b = t(a); a = s2; out = m(a, b): a reference means the definition in force at that point, so the specification
+    equals m(s2, t(s1)) written out."""
+    from ..modular import replace
+    from ..monitors import run_dt_off, run_dt_on
+    s1, s2, t, m = (from_json(case[k]) for k in ('s1', 's2', 't', 'm'))
+    kind = case['kind']
+    a, b = ('var', 'a'), ('var', 'b')
+    full = replace(replace(m, b, replace(t, a, s1)), a, s2)
+    used = F.fvars(full)
+    labels = ['kind:' + kind, 'delivery:' + case['delivery'], 'name-defined-again-after-use'] + feature_labels(full)
+    if not used:
+        return DISCARD('no-variable', labels)
+    feed_vars = [v for v in case['vars'] if v in used]
+    tr = {v: [float(x) for x in case['trace'][v]] for v in feed_vars}
+    run = run_dt_off if kind == 'dt_off' else run_dt_on
+    texts = ['a = ' + F.show(s1), 'b = ' + F.show(t), 'a = ' + F.show(s2)]
+    inl = run('out = ' + F.show(full), feed_vars, tr)
+    if case['delivery'] == 'add_sub_spec':
+        mod = run('out = ' + F.show(m), feed_vars, tr, subspecs=texts)
+    else:
+        mod = run('; '.join(texts) + '; out = ' + F.show(m), feed_vars, tr)
+    desc = 'kind %s, delivery %s\nrequirements in order: %s\nmain: out = %s\ninlined: out = %s\ntrace: %s' % (kind, case['delivery'], texts, F.show(m), F.show(full), tr)
+    if inl[0] != 'ok':
+        return DISCARD('inlined-raises(C17):' + inl[1], labels)
+    if mod[0] != 'ok':
+        return FAIL('modular-raises:%s:%s' % (kind, mod[1]), desc + '\nmodular specification raised %s: %s at %s' % (mod[1], mod[3], mod[4]), labels)
+    x = [p[1] for p in mod[1]] if kind == 'dt_off' else mod[1]
+    y = [p[1] for p in inl[1]] if kind == 'dt_off' else inl[1]
+    if any(v != v for v in x + y):
+        return DISCARD('nan', labels)
+    tol = needs_tolerance(full)
+    if len(x) != len(y) or any(not same(p, q, tol) for p, q in zip(x, y)):
+        return FAIL('modular-differs:redefined:' + kind, desc + '\nmodular: %r\ninlined: %r' % (x, y), labels)
+    return PASS(F.n_temporal(full) >= 1 and len(set(y)) > 1, labels)
+
+
+LANES.append(Lane('redefined', redefined_cases, check_redefined, 1500, 15000, None))
